@@ -13,6 +13,7 @@ from __future__ import annotations
 
 import _thread
 import gc
+import os
 import sys
 import threading
 import zlib
@@ -21,6 +22,7 @@ _allocate = _thread.allocate_lock
 _get_ident = _thread.get_ident
 
 ACTIVE = None  # the Scheduler of the run in progress in this process, if any
+USE_MONITORING = os.environ.get("VERIF_TRACER", "monitoring") != "settrace"
 _PKG_PREFIX = "\0"
 M64 = (1 << 64) - 1
 
@@ -296,6 +298,7 @@ class Scheduler:
         self.trace = [] if record_trace else None
         self.locks_held = 0
         self.on_point = None  # optional probe callback(code, lineno)
+        self._mode = 2
 
     # -- construction
     def add_thread(self, body):
@@ -338,10 +341,46 @@ class Scheduler:
         return self._local_tracer
 
     def _local_tracer(self, frame, event, arg):
-        if event == "line" and self.running:
-            info = self.codes[frame.f_code]
-            self._point(self.current, info, frame.f_lineno)
+        # hot path: one call per executed line of repository code; _point is inlined for the common strategies
+        if event != "line" or not self.running:
+            return self._local_tracer
+        info = self.codes[frame.f_code]
+        t = self.current
+        mode = self._mode
+        if mode == 2:
+            self._point(t, info, frame.f_lineno)
+            return self._local_tracer
+        steps = self.steps = self.steps + 1
+        t.ev += 1
+        t.op_steps += 1
+        self.digest = ((self.digest ^ ((t.idx << 44) | (info[0] << 20) | frame.f_lineno)) * 1099511628211) & M64
+        if steps > self.max_steps:
+            self._abort("step-cap", t)
+        if mode == 1 and self._rand() < (self._p_hot if info[1] else self._p_cold):
+            c = [x for x in self.threads if x.state == 1 and x is not t]
+            if c:
+                n = self.strategy.rng.choice(c)
+                self.n_voluntary += 1
+                if info[1]:
+                    self.hot_switches += 1
+                if self.locks_held:
+                    self.switch_holding_lock += 1
+                self._switch(t, n)
         return self._local_tracer
+
+    def _setup_fast_path(self):
+        """mode 0: strategy never pre-empts (serial); 1: Bernoulli per point (uniform/biased); 2: generic (everything else,
+        or when tracing / probes / per-op caps are on). The PRNG draw sequence is identical to the generic path."""
+        st = self.strategy
+        self._mode = 2
+        if self.trace is not None or self.on_point is not None or self.max_op_steps is not None:
+            return
+        if isinstance(st, Serial):
+            self._mode = 0
+        elif isinstance(st, Uniform):
+            self._mode, self._p_hot, self._p_cold, self._rand = 1, st.p, st.p, st.rng.random
+        elif isinstance(st, Biased):
+            self._mode, self._p_hot, self._p_cold, self._rand = 1, st.p_hot, st.p_cold, st.rng.random
 
     # -- scheduling points
     def _point(self, t, info, lineno):
@@ -456,16 +495,60 @@ class Scheduler:
         lock.waiters.clear()
         self._point(t, self._LOCK_INFO, 2)
 
+    # -- sys.monitoring variant of the tracer (default): LINE and PY_START events, disabled per code location for
+    #    everything that is not repository code, so foreign frames cost nothing after their first event
+    MON_TOOL = 3
+
+    def _mon_start(self, code, offset):
+        info = self.codes.get(code)
+        if info is None:
+            info = self._classify(code)
+        if info is False:
+            return sys.monitoring.DISABLE
+        if self.running:
+            t = self.current
+            if t is not None and t.ident == _get_ident():
+                self._point(t, info, code.co_firstlineno)
+        return None
+
+    def _mon_line(self, code, lineno):
+        info = self.codes.get(code)
+        if info is None:
+            info = self._classify(code)
+        if info is False:
+            return sys.monitoring.DISABLE
+        if self.running:
+            t = self.current
+            if t is not None and t.ident == _get_ident():
+                self._point(t, info, lineno)
+        return None
+
+    def _mon_install(self):
+        m = sys.monitoring
+        m.use_tool_id(self.MON_TOOL, "verif-simsched")
+        m.register_callback(self.MON_TOOL, m.events.PY_START, self._mon_start)
+        m.register_callback(self.MON_TOOL, m.events.LINE, self._mon_line)
+        m.set_events(self.MON_TOOL, m.events.PY_START | m.events.LINE)
+
+    def _mon_remove(self):
+        m = sys.monitoring
+        m.set_events(self.MON_TOOL, 0)
+        m.register_callback(self.MON_TOOL, m.events.PY_START, None)
+        m.register_callback(self.MON_TOOL, m.events.LINE, None)
+        m.free_tool_id(self.MON_TOOL)
+
     # -- thread body wrapper
     def _thread_main(self, t):
         t.ident = _get_ident()
         t.ready.release()
         t.gate.acquire()
-        sys.settrace(self._global_tracer)
+        if not USE_MONITORING:
+            sys.settrace(self._global_tracer)
         try:
             t.body(self, t)
         finally:
-            sys.settrace(None)
+            if not USE_MONITORING:
+                sys.settrace(None)
         t.state = 3
         t.op = -1  # coordinates of the 'thread finished' hand-over: (idx, -1, 0)
         t.ev = 0
@@ -485,6 +568,9 @@ class Scheduler:
                 th.start()
                 t.ready.acquire()
             self.strategy.setup(self)
+            self._setup_fast_path()
+            if USE_MONITORING:
+                self._mon_install()
             first = self.strategy.pick(self, None, list(self.threads))
             self.switches.append([-1, 0, 0, first.idx])
             self.current = first
@@ -496,6 +582,11 @@ class Scheduler:
                     t.thread.join()
         finally:
             self.running = False
+            if USE_MONITORING:
+                try:
+                    self._mon_remove()
+                except Exception:  # noqa: BLE001
+                    pass
             ACTIVE = None
             if gc_was:
                 gc.enable()
